@@ -35,6 +35,7 @@ Step ==
           \/ (e.a = "Load" /\ Load)
           \/ (e.a = "ToDtype" /\ ToDtype(e.d))
           \/ (e.a = "Copy" /\ Copy /\ res'.o = e.o)
+          \/ (e.a = "SetFrozen" /\ SetFrozen(e.b))
        \* logged projection of the real object's state after the step
        /\ <<cw'.filled, ci'.filled, cl'.filled>> = e.occ
        /\ training' = e.tr /\ usingCache' = e.uc /\ dt' = e.dt
